@@ -1,4 +1,5 @@
 import Comdex.Lemmas.Gauge
+import Comdex.Lemmas.ExtReward
 /-!
 # C19 — Incentive payouts never exceed their funding and follow farmed share
 
@@ -13,7 +14,9 @@ Property clause → theorem (all kernel-checked, quantified over ALL totals / ep
     → `epoch_pays_le_allocation` (record), `epoch_outflow_le_allocation` (coins leaving the module account)
 * "the cumulative amount paid never exceeds the deposit"
     → `cumulative_le_deposit` (induction over any list of trigger attempts: any block times — early, late, after
-      skipped epochs —, any distribution data, panics rolled back), `epoch_clock_skips_are_not_repaid`
+      skipped epochs —, any distribution data, panics rolled back), `epoch_clock_skips_are_not_repaid`,
+      `epoch_clock_halt_realigns` (the chain-halt branch: whole durations, no epoch counted, nothing triggered),
+      `epoch_clock_no_burst` (any history of block times: triggers ≤ elapsed / duration)
 * "no farmer's payout exceeds its pro-rata share … by more than one part in 10^12 (floating-point rounding)"
     → `farmer_share_le_prorata`: for every Dec→float conversion with relative error ≤ 2⁻⁵³ (`FloatUpper`, an explicit
       hypothesis; `f64_satisfies_float_hypothesis` shows the exact round-to-nearest-even conversion satisfies it, the
@@ -27,10 +30,28 @@ Property clause → theorem (all kernel-checked, quantified over ALL totals / ep
       `master_child_share_le_prorata` / `plain_share_le_prorata_from_positions`: the same from the farmed POSITIONS
       (amount, price, decimals per farmer and pool), weight = min(master value, Σ child-pool values)
       (`weight_is_min_of_master_and_child_sum`).
+* the same three clauses for the EXTERNAL REWARD PROGRAMMES (locker, vault, lend; `Model/ExtReward.lean`):
+    "each epoch pays at most that epoch's allocation" is FALSE of the code as worded; what holds exactly:
+    → `ext_share_epoch_bound` (locker / vault: paid ≤ E·(1 + n/(2·10¹⁸)) + n/(2·10¹⁸), E = Dec(avail)/Dec(daysLeft), for n eligible
+      positions adding up to at most the total share), `ext_share_epoch_cap_partial` (the literal cap when
+      (avail + 2·daysLeft)·(n+1) < 10¹⁸), `ext_overpay_counterexample` (D20);
+      `ext_lend_block_each_programme_bounded` (lend: for ANY number of programmes handled in one block every payout comes
+      from an accumulator whose total is the sum of its truncated weights, and paid ≤ (D/T + ½ulp)·Σw + n/(2·10¹⁸) with D the
+      daily VALUE of the programme's own AvailableRewards), `ext_lend_weights_vs_total`, `ext_lend_daily_value`,
+      `ext_lend_value_at_par`, `ext_lend_epoch_cap_partial` (the literal cap at par price with integral weights),
+      `ext_lend_value_as_amount_counterexample` (D35), `ext_lend_truncated_total_counterexample` (D36)
+    "the cumulative amount paid never exceeds the deposit"
+    → `ext_cumulative_is_funding_minus_available` (any history), `ext_available_nonneg_of_epoch_caps` (cumulative ≤ funding and
+      AvailableRewards ≥ 0 PROVIDED every epoch respects the literal cap — the code does not enforce it, see the three
+      counterexamples), `ext_epochs_le_duration`, `ext_one_epoch_per_visit`, `ext_not_due_twice`, `ext_share_visit_valid`,
+      `ext_accepted_programme_funded`
+* swap-fee gauges (`sfTrigger`): `sf_epoch_pays_le_collected`; `sf_gauge_leak_counterexample` (D37: a failed fee transfer after
+  a paid distribution leaves the record unchanged, the deposit is paid again every epoch)
 * "the rewards custody account always holds at least the undistributed remainder of all active gauges and external
    reward programs"
-    → `custody_ge_remaining` (ledger invariant over create-gauge / create-programme / donations / begin blockers made of
-      gauge triggers, programme payouts, deactivations, with panicking blocks rolled back),
+    → `custody_ge_remaining` (ledger invariant over create-gauge / pool creation / create-programme / donations / begin
+      blockers made of gauge triggers, swap-fee gauge triggers, programme payouts, deactivations, with panicking blocks rolled
+      back; hypothesis `noLeak`: no swap-fee trigger of the history is the D37 situation),
       `custody_ge_active_remaining` (sum over ACTIVE gauges and programmes, under the explicit hypothesis that no
       programme's `AvailableRewards` is negative — the code has no such guard, the monitor `custody` tests it),
       `farmers_receive_calculated` (under the invariant no reward send can fail for lack of funds);
@@ -184,6 +205,73 @@ theorem epoch_clock_one_trigger_per_block (e : Epoch) (now : Int) :
     (epochStep e now).2 = true → (epochStep e now).1.count = e.count + 1 ∧ (epochStep e now).1.cur = e.cur + e.dur := by
   unfold epochStep
   split_ifs <;> simp
+
+/-- **Chain halt** (epochs.go:84-90, "In case of chain halt/stop"): when a block arrives more than two durations after the
+current epoch start, the clock jumps forward by a whole number `k ≥ 2` of durations — it stays on its grid —, lands within one
+duration before the block time, counts NO epoch (`CurrentEpoch` unchanged) and triggers nothing in that block; the epoch that
+is running at the restart is triggered by the first block after `cur' + dur`, i.e. less than one duration later. -/
+theorem epoch_clock_halt_realigns (e : Epoch) (now : Int) (hf : e.fresh = false) (hd : 0 < e.dur)
+    (hgap : e.cur + e.dur * 2 < now) :
+    (epochStep e now).2 = false ∧ (epochStep e now).1.count = e.count ∧ (epochStep e now).1.dur = e.dur ∧
+    (∃ k : Int, 2 ≤ k ∧ (epochStep e now).1.cur = e.cur + e.dur * k) ∧
+    (epochStep e now).1.cur ≤ now ∧ now < (epochStep e now).1.cur + e.dur := by
+  unfold epochStep
+  rw [if_neg (by simp [hf]), if_pos hgap]
+  have hpos : 0 ≤ now - e.cur := by nlinarith
+  rw [Int.tdiv_eq_ediv_of_nonneg hpos]
+  have h1 : (now - e.cur) / e.dur * e.dur ≤ now - e.cur := Int.ediv_mul_le _ (ne_of_gt hd)
+  have h2 : now - e.cur < ((now - e.cur) / e.dur + 1) * e.dur := Int.lt_ediv_add_one_mul_self _ hd
+  have h3 : 2 ≤ (now - e.cur) / e.dur := by
+    apply (Int.le_ediv_iff_mul_le hd).mpr; nlinarith
+  refine ⟨rfl, rfl, rfl, ⟨(now - e.cur) / e.dur, h3, rfl⟩, ?_, ?_⟩
+  · simp only; nlinarith
+  · simp only; nlinarith
+
+example : epochStep { fresh := false, cur := 1000, dur := 100, count := 7 } 1675
+    = ({ fresh := false, cur := 1600, dur := 100, count := 7 }, false) := by decide
+
+/-- **No burst after a halt, for any history of block times**: however the blocks are spaced (early, late, after one or
+many halts), the number of times a duration's gauges have been triggered up to time `T` is at most `(T − cur₀) / dur`:
+every trigger moves the clock by one duration and the clock never passes the block time. -/
+theorem epoch_clock_no_burst (e : Epoch) (times : List Int) (T : Int) (hf : e.fresh = false) (hd : 0 < e.dur)
+    (ht : ∀ t ∈ times, t ≤ T) :
+    ((runEpoch e times).2 : Int) * e.dur ≤ (runEpoch e times).1.cur - e.cur ∧
+    (runEpoch e times).1.cur ≤ max e.cur T ∧ (runEpoch e times).1.dur = e.dur := by
+  induction times generalizing e with
+  | nil => simp [runEpoch]
+  | cons now rest ih =>
+    have hnow : now ≤ T := ht now (by simp)
+    have hstep : (epochStep e now).1.fresh = false ∧ (epochStep e now).1.dur = e.dur ∧
+        (((epochStep e now).2 = true ∧ (epochStep e now).1.cur = e.cur + e.dur ∧ (epochStep e now).1.cur < now) ∨
+         ((epochStep e now).2 = false ∧ e.cur ≤ (epochStep e now).1.cur ∧ (epochStep e now).1.cur ≤ max e.cur now)) := by
+      by_cases hgap : e.cur + e.dur * 2 < now
+      · obtain ⟨a, _, c, ⟨k, hk, hk'⟩, d, _⟩ := epoch_clock_halt_realigns e now hf hd hgap
+        refine ⟨?_, c, Or.inr ⟨a, ?_, ?_⟩⟩
+        · unfold epochStep; rw [if_neg (by simp [hf]), if_pos hgap]; exact hf
+        · rw [hk']; nlinarith
+        · exact le_trans d (le_max_right _ _)
+      · unfold epochStep
+        rw [if_neg (by simp [hf]), if_neg hgap]
+        split
+        · rename_i h; exact ⟨hf, rfl, Or.inl ⟨rfl, rfl, by simp only; omega⟩⟩
+        · exact ⟨hf, rfl, Or.inr ⟨rfl, le_refl _, le_max_left _ _⟩⟩
+    obtain ⟨hf', hd', hc⟩ := hstep
+    obtain ⟨i1, i2, i3⟩ := ih (epochStep e now).1 hf' (by rw [hd']; exact hd) (fun t h => ht t (by simp [h]))
+    simp only [runEpoch]
+    rw [hd'] at i1 i3
+    refine ⟨?_, ?_, i3⟩
+    · rcases hc with ⟨h1, h2, _⟩ | ⟨h1, h2, _⟩
+      · simp only [h1, if_true]; push_cast; rw [h2] at i1; nlinarith
+      · simp only [h1, Bool.false_eq_true, if_false, Nat.add_zero]; omega
+    · rcases hc with ⟨_, h2, h3⟩ | ⟨_, _, h3⟩
+      · have : (epochStep e now).1.cur ≤ T := by omega
+        exact le_trans i2 (max_le (le_trans this (le_max_right _ _)) (le_max_right _ _))
+      · have : (epochStep e now).1.cur ≤ max e.cur T := le_trans h3 (max_le (le_max_left _ _) (le_trans hnow (le_max_right _ _)))
+        exact le_trans i2 (max_le this (le_max_right _ _))
+
+-- a clock at 1000 with duration 100 and blocks at 1101, 1150, 1675 (halt), 1690, 1701: two triggers in 701 time units
+example : runEpoch { fresh := false, cur := 1000, dur := 100, count := 0 } [1101, 1150, 1675, 1690, 1701]
+    = ({ fresh := false, cur := 1700, dur := 100, count := 2 }, 2) := by decide
 
 /-! ## Farmer shares -/
 
@@ -347,16 +435,18 @@ example : weight { master := ⟨500, 1000000, 1000000⟩, children := [⟨300, 1
 
 /-! ## Custody -/
 
-/-- **Custody**: after ANY sequence of operations from the empty ledger — gauge creations (accepted or rejected),
-external-programme creations, donations, begin blockers consisting of any gauge triggers / programme payouts /
-deactivations in any order with any distribution data (a panicking block is rolled back) — the rewards module
-account holds at least the sum of all gauges' undistributed remainders plus all programmes' available rewards,
-and every gauge's remainder is non-negative. -/
-theorem custody_ge_remaining (ops : List Op) (l : Ledger) (hl : l = run Ledger.empty ops) :
-    remGauges l.gauges + remExts l.exts ≤ l.bal ∧
+/-- **Custody**: after ANY sequence of operations from the empty ledger — gauge creations (accepted or rejected), pool
+creations (swap-fee gauges), external-programme creations, donations, begin blockers consisting of any gauge triggers /
+swap-fee gauge triggers / programme payouts / deactivations in any order with any distribution data (a panicking block is
+rolled back) — in which no swap-fee trigger is a leak (`noLeak`: a distribution that paid followed by a FAILED transfer,
+see `sf_gauge_leak_counterexample`), the rewards module account holds at least the sum of all gauges' undistributed
+remainders plus all swap-fee gauges' deposits plus all programmes' available rewards, and every gauge's remainder is
+non-negative. -/
+theorem custody_ge_remaining (ops : List Op) (l : Ledger) (hl : l = run Ledger.empty ops) (hk : noLeak Ledger.empty ops = true) :
+    remGauges l.gauges + remExts l.exts + remSfs l.sfs ≤ l.bal ∧
     ∀ g ∈ l.gauges, 0 ≤ gaugeRem g ∧ 0 ≤ g.distributed ∧ g.triggered ≤ g.total := by
   subst hl
-  obtain ⟨hg, hb⟩ := run_inv Ledger.empty ops empty_inv
+  obtain ⟨hg, hb⟩ := run_inv Ledger.empty ops empty_inv hk
   refine ⟨hb, fun g hgm => ?_⟩
   have h := hg g hgm
   have := GInv_le_deposit g h
@@ -365,13 +455,45 @@ theorem custody_ge_remaining (ops : List Op) (l : Ledger) (hl : l = run Ledger.e
 /-- the clause as worded (ACTIVE gauges and programmes).  The hypothesis that no programme's `AvailableRewards`
 is negative is NOT enforced by the code (`AvailableRewards -= tracker` without comparison); the monitor tests it. -/
 theorem custody_ge_active_remaining (ops : List Op) (l : Ledger) (hl : l = run Ledger.empty ops)
-    (hx : ∀ x ∈ l.exts, 0 ≤ x.avail) :
-    remActiveGauges l.gauges + remActiveExts l.exts ≤ l.bal := by
+    (hk : noLeak Ledger.empty ops = true) (hx : ∀ x ∈ l.exts, 0 ≤ x.avail) :
+    remActiveGauges l.gauges + remActiveExts l.exts + remSfs l.sfs ≤ l.bal := by
   subst hl
-  obtain ⟨hg, hb⟩ := run_inv Ledger.empty ops empty_inv
+  obtain ⟨hg, hb⟩ := run_inv Ledger.empty ops empty_inv hk
   have h1 := remActiveGauges_le _ hg
   have h2 := remActiveExts_le _ hx
   omega
+
+/-- **One swap-fee epoch**: what is handed out is at most what the gauge collected at the previous epoch (its
+`DepositAmount`), every coin is non-negative, nothing is handed out from an empty gauge; and when the epoch is counted the
+record moves by exactly what was paid and what arrived: `deposit' = deposit − paid + received`. -/
+theorem sf_epoch_pays_le_collected (g g' : SfGauge) (d : DistData) (x : Xfer) (sends : List Int) (recv : Int)
+    (h : sfTrigger g d x = .ok (g', sends, recv)) :
+    (∀ r ∈ sends, 0 ≤ r) ∧ 0 ≤ recv ∧ (0 < g.deposit → sumL sends ≤ g.deposit) ∧ (g.deposit ≤ 0 → sends = []) ∧
+    (g'.triggered = g.triggered + 1 →
+      g'.deposit = g.deposit - sumL sends + recv ∧ g'.distributed = g.distributed + sumL sends) := by
+  obtain ⟨h1, h2, h3, h4, hc⟩ := sfTrigger_cases g g' d x sends recv h
+  refine ⟨h1, h2, h3, h4, ?_⟩
+  intro ht
+  rcases hc with ⟨rfl, _, _⟩ | ⟨amt, _, rfl, hd, hdi, _⟩
+  · omega
+  · exact ⟨hd, hdi⟩
+
+example : sfTrigger { deposit := 36000, distributed := 0, triggered := 1 } (.ok [35999]) (.ok 500)
+    = .ok ({ deposit := 501, distributed := 35999, triggered := 2 }, [35999], 500) := by decide
+
+/-- **A swap-fee gauge can pay the same deposit again and again** (gauge.go:266-287): the distribution is paid, then
+`TransferFundsForSwapFeeDistribution` fails (two pools on the pair and the oracle price of one side missing) and the loop
+`continue`s before `SetGauge` — the record keeps `DepositAmount = 36000`.  Three epochs later 108 000 have left the module
+account for 36 000 collected, and an ordinary gauge's 100 000 in the same account are backed by 28 000. -/
+theorem sf_gauge_leak_counterexample :
+    sfTrigger { deposit := 36000, distributed := 0, triggered := 1 } (.ok [36000]) .err
+      = .ok ({ deposit := 36000, distributed := 0, triggered := 1 }, [36000], 0) ∧
+    run Ledger.empty
+      [.createGauge 100000 10 1000 0 86400000000000 43200000000000 true 100000, .createSf,
+       .block [.sfTrigger 0 (.ok []) (.ok 36000)],
+       .block [.sfTrigger 0 (.ok [36000]) .err], .block [.sfTrigger 0 (.ok [36000]) .err], .block [.sfTrigger 0 (.ok [36000]) .err]]
+    = { bal := 28000, gauges := [newGauge 100000 10 1000], exts := [], sfs := [{ deposit := 36000, distributed := 0, triggered := 1 }] } := by
+  constructor <;> decide
 
 /-- **The external programmes have no `paid ≤ available` guard, and their share arithmetic can exceed it**
 (iter.go:60-90): 9·10¹⁸ base units available on the last day, six lockers with equal balances ⇒ each share is
@@ -390,7 +512,7 @@ theorem ext_overpay_counterexample :
 /-- under the invariant the bank can never refuse a gauge's reward send for lack of funds: every receiver gets
 exactly the calculated reward -/
 theorem farmers_receive_calculated (l : Ledger) (hl : LInv l) (hx : ∀ x ∈ l.exts, 0 ≤ x.avail)
-    (i : Nat) (g g' : Gauge) (now : Int) (d : DistData) (sends : List Int)
+    (hsf : ∀ s ∈ l.sfs, 0 ≤ s.deposit) (i : Nat) (g g' : Gauge) (now : Int) (d : DistData) (sends : List Int)
     (hg : l.gauges[i]? = some g) (ht : trigger g now d = .ok (g', sends)) :
     sendAll l.bal sends = (l.bal - sumL sends, sends) := by
   obtain ⟨hgi, hb⟩ := hl
@@ -398,6 +520,7 @@ theorem farmers_receive_calculated (l : Ledger) (hl : LInv l) (hx : ∀ x ∈ l.
   apply sendAll_exact sends hnn
   have h1 := gaugeRem_le_remGauges l.gauges hgi g (List.mem_of_getElem? hg)
   have h2 := remExts_nonneg l.exts hx
+  have h3 := remSfs_nonneg l.sfs hsf
   rcases hc with rfl | ⟨_, _, hs, hcap⟩
   · have := GInv_le_deposit g (hgi g (List.mem_of_getElem? hg))
     simp only [sumL, gaugeRem] at *; omega
@@ -414,5 +537,276 @@ example :
     = { bal := 550,
         gauges := [{ deposit := 1000, distributed := 1000, triggered := 3, total := 3, active := true, start := 0 }],
         exts := [{ avail := 550, active := false }] } := by decide
+
+/-! ## External reward programmes (locker, vault, lend): `Model/ExtReward.lean` -/
+
+section ExtProgrammes
+open Comdex.ExtReward
+
+/-- **Locker / vault programme, one epoch — what holds exactly.**  Whenever `DistributeExtRewardLocker` / `…Vault` pays an
+epoch of a programme with non-negative `AvailableRewards`, a positive total share and eligible positions that add up to at most
+the total share: every payment is non-negative and, with `n` eligible positions and `E = Dec(avail).Quo(Dec(daysLeft))`,
+`paid · 2·10³⁶ ≤ E·(2·10¹⁸ + n) + n·10¹⁸`   i.e.   `paid ≤ E·(1 + n/(2·10¹⁸)) + n/(2·10¹⁸)`,   `E ≤ avail/daysLeft + ½·10⁻¹⁸`:
+the epoch allocation plus a rounding excess of at most `n/2` units in the 18th decimal of the allocation (finding D20). -/
+theorem ext_share_epoch_bound (p : Prog) (now total : Int) (users : List User) (pays : List Int)
+    (h : shareOutcome p now total users = .ok (.pay pays))
+    (ha : 0 ≤ p.avail) (ht : 0 < total) (hu : ∀ u ∈ users, 0 ≤ u.amt)
+    (hsum : sumL ((users.filter (eligible p now)).map (·.amt)) ≤ total) :
+    (∀ r ∈ pays, 0 ≤ r) ∧
+    shareBoundOk p (users.filter (eligible p now)).length (sumL pays) = true ∧
+    0 ≤ epochRewards p ∧ 2 * epochRewards p * p.daysLeft ≤ 2 * p.avail * Dec.P + p.daysLeft := by
+  obtain ⟨_, hp⟩ := shareOutcome_valid p now total users _ h
+  obtain ⟨_, _, hc, rfl⟩ := hp pays rfl
+  have hd : 0 < p.daysLeft := by unfold Prog.daysLeft; omega
+  have hb := share_bound p now total users ha hd ht hu (by rw [eligAmount_eq]; exact hsum)
+  rw [eligCount_eq] at hb
+  obtain ⟨hE0, hE1⟩ := epochRewards_bounds p ha hd
+  refine ⟨?_, hb, hE0, hE1⟩
+  intro r hr
+  obtain ⟨u, _, rfl⟩ := List.mem_map.mp hr
+  exact userPay_nonneg p now total u
+
+/-- **The clause as worded, where it holds** (locker / vault): when `(avail + 2·daysLeft)·(n + 1) < 10¹⁸` — any 6-decimal
+token amount below 10¹⁸/(n+1) base units — the epoch pays at most `avail / daysLeft`. -/
+theorem ext_share_epoch_cap_partial (p : Prog) (now total : Int) (users : List User) (pays : List Int)
+    (h : shareOutcome p now total users = .ok (.pay pays))
+    (ha : 0 ≤ p.avail) (ht : 0 < total) (hu : ∀ u ∈ users, 0 ≤ u.amt)
+    (hsum : sumL ((users.filter (eligible p now)).map (·.amt)) ≤ total)
+    (hsmall : (p.avail + 2 * p.daysLeft) * (((users.filter (eligible p now)).length : Int) + 1) < Dec.P) :
+    capOk p (sumL pays) = true := by
+  obtain ⟨hnn, hb, hE0, hE1⟩ := ext_share_epoch_bound p now total users pays h ha ht hu hsum
+  obtain ⟨_, hp⟩ := shareOutcome_valid p now total users _ h
+  obtain ⟨_, _, hc, _⟩ := hp pays rfl
+  have hd : 0 < p.daysLeft := by unfold Prog.daysLeft; omega
+  have hP := P_pos
+  have hs0 : 0 ≤ sumL pays := sumL_nonneg pays hnn
+  unfold shareBoundOk at hb
+  simp only [decide_eq_true_eq] at hb
+  unfold capOk
+  simp only [Bool.or_eq_true, Bool.and_eq_true, decide_eq_true_eq]
+  right
+  refine ⟨hs0, ?_⟩
+  generalize sumL pays = paid at *
+  have hn : (0:Int) ≤ ((users.filter (eligible p now)).length : Int) := Int.natCast_nonneg _
+  generalize ((users.filter (eligible p now)).length : Int) = n at *
+  generalize epochRewards p = E at *
+  generalize p.daysLeft = dl at *
+  generalize p.avail = av at *
+  -- paid·dl·4P² ≤ (2·av·P + dl)(2P + n) + 2nP·dl
+  have e1 : paid * (2 * Dec.P * Dec.P) * (2 * dl) ≤ (E * (2 * Dec.P + n) + n * Dec.P) * (2 * dl) :=
+    Int.mul_le_mul_of_nonneg_right hb (by omega)
+  have e2 : 2 * E * dl * (2 * Dec.P + n) ≤ (2 * av * Dec.P + dl) * (2 * Dec.P + n) :=
+    Int.mul_le_mul_of_nonneg_right hE1 (by omega)
+  -- the excess is below one unit
+  have e3 : 2 * av * n + 2 * dl + 3 * n * dl < 2 * Dec.P := by nlinarith [mul_nonneg ha hn, mul_nonneg hn (le_of_lt hd)]
+  have e6 : n * dl ≤ Dec.P * (n * dl) := by nlinarith [mul_nonneg hn (le_of_lt hd)]
+  have e7 : Dec.P * (2 * av * n + 2 * dl + 3 * n * dl) < Dec.P * (2 * Dec.P) := Int.mul_lt_mul_of_pos_left e3 hP
+  have e4 : (paid * dl - av) * (4 * Dec.P * Dec.P) < 4 * Dec.P * Dec.P := by nlinarith
+  have e5 : paid * dl - av < 1 := by
+    by_contra hcon
+    have : 1 * (4 * Dec.P * Dec.P) ≤ (paid * dl - av) * (4 * Dec.P * Dec.P) :=
+      Int.mul_le_mul_of_nonneg_right (by omega) (by positivity)
+    omega
+  omega
+
+-- three lockers 200 / 300 / 500 of a total share 1000, 9000 available, 3 days left: 600 + 900 + 1500 = the allocation 3000
+example : shareOutcome (newProg 9000 3 1 0 DAY) 100000 1000 [⟨200, 5⟩, ⟨300, 6⟩, ⟨500, 7⟩] = .ok (.pay [600, 900, 1500]) := by decide
+-- a locker created 10 s ago is not eligible for a 3600 s lock-up (except on the last day)
+example : shareOutcome (newProg 9000 3 3600 0 DAY) 100000 1000 [⟨200, 5⟩, ⟨300, 6⟩, ⟨500, 99990⟩] = .ok (.pay [600, 900, 0]) := by decide
+example : shareOutcome { newProg 9000 3 3600 0 DAY with count := 2 } 100000 1000 [⟨200, 5⟩, ⟨300, 6⟩, ⟨500, 99990⟩]
+    = .ok (.pay [1800, 2700, 4500]) := by decide
+example : capOk (newProg 9000 3 1 0 DAY) 3000 = true := by decide
+
+/-- **Lend programmes, any number of them handled in one block.**  `DistributeExtRewardLend` keeps `addrArr`, `amountArr` and
+`totalAmount` across the programmes of one block.  For every list of programmes and environments (prices, borrowers, farmed
+positions — non-negative), every programme that pays does so from an accumulator whose total IS the sum of the truncated
+weights it holds (`accOk`), with a positive total, and its payout obeys
+`paid · 2·10³⁶·T ≤ (2·D + T)·Σw + n·10¹⁸·T`   i.e.   `paid ≤ (D/T + ½ulp)·Σw + n/(2·10¹⁸)`
+with `D` the daily VALUE of the programme's own `AvailableRewards`, `T` the accumulated total, `Σw` the accumulated weights. -/
+theorem ext_lend_block_each_programme_bounded (now : Int) (pes : List (Prog × LendEnv))
+    (he : ∀ pe ∈ pes, EnvOk pe.2) (hav : ∀ pe ∈ pes, 0 ≤ pe.1.avail) :
+    ∀ ao ∈ lendBlock now pes Acc.empty, accOk ao.1 = true ∧
+      ∀ pays, ao.2 = .pay pays →
+        0 < ao.1.tot ∧ (∀ r ∈ pays, 0 ≤ r) ∧
+        ∃ pe ∈ pes, ∃ tr, value pe.2.reward pe.1.avail = some tr ∧ 0 ≤ lendDaily pe.1 tr ∧
+          lendBoundOk ao.1.ws ao.1.tot (lendDaily pe.1 tr) (sumL pays) = true := by
+  intro ao hao
+  obtain ⟨hacc, hp⟩ := lendBlock_spec now pes Acc.empty AccOk_empty he ao hao
+  refine ⟨(accOk_iff _).mpr hacc, ?_⟩
+  intro pays hpay
+  obtain ⟨pe, hpe, _, _, hc, htot, tr, htr, rfl⟩ := hp pays hpay
+  have hd : 0 < pe.1.daysLeft := by unfold Prog.daysLeft; omega
+  have htr0 : 0 ≤ tr := value_nonneg _ _ _ (he pe hpe).2.2.2.1 (hav pe hpe) htr
+  have hD := lendDaily_nonneg pe.1 tr htr0 hd
+  obtain ⟨hnn, hb⟩ := lend_bound ao.1.ws ao.1.tot (lendDaily pe.1 tr) hacc.2 htot hD
+  exact ⟨htot, hnn, pe, hpe, tr, htr, hD, hb⟩
+
+/-- the accumulated weights exceed the accumulated total only by their fractional parts: `T·10¹⁸ ≤ Σw < (T + n)·10¹⁸` -/
+theorem ext_lend_weights_vs_total (a : Acc) (h : accOk a = true) :
+    a.tot * Dec.P ≤ sumL a.ws ∧ sumL a.ws + (a.ws.length : Int) ≤ (a.tot + (a.ws.length : Int)) * Dec.P := by
+  obtain ⟨h1, h2⟩ := (accOk_iff a).mp h
+  obtain ⟨i1, i2, _⟩ := sum_lt_trunc a.ws h2
+  rw [h1]; exact ⟨i2, i1⟩
+
+/-- `D` is the oracle VALUE of the available rewards over the days left: `2·D·daysLeft ≤ 2·value + daysLeft`; and when the
+reward token's price record is exactly one value unit per base unit (`twa = decimals`) the value of an amount is the amount -/
+theorem ext_lend_daily_value (p : Prog) (tr : Dec) (ht : 0 ≤ tr) (hc : (p.count : Int) < p.days) :
+    0 ≤ lendDaily p tr ∧ 2 * lendDaily p tr * p.daysLeft ≤ 2 * tr + p.daysLeft :=
+  quo_ofInt_bounds tr p.daysLeft ht (by unfold Prog.daysLeft; omega)
+
+theorem ext_lend_value_at_par (pr : Price) (amt : Int) (hf : pr.found = true) (ht : 0 < pr.twa) (hpar : pr.twa = pr.dec)
+    (ha : 0 ≤ amt) : value pr amt = some (Dec.ofInt amt) := value_at_par pr amt hf ht hpar ha
+
+/-- **The clause as worded, where it holds** (lend): reward token at par, weights without fractional part (`Σw = T·10¹⁸`),
+`(T + n + 1)·daysLeft < 2·10¹⁸`. -/
+theorem ext_lend_epoch_cap_partial (p : Prog) (pr : Price) (ws : List Dec) (tot : Int)
+    (hf : pr.found = true) (ht : 0 < pr.twa) (hpar : pr.twa = pr.dec) (ha : 0 ≤ p.avail) (hc : (p.count : Int) < p.days)
+    (hw : ∀ w ∈ ws, 0 ≤ w) (htot : 0 < tot) (hint : sumL ws = tot * Dec.P)
+    (hsmall : (tot + (ws.length : Int) + 1) * p.daysLeft < 2 * Dec.P) :
+    ∃ tr, value pr p.avail = some tr ∧ capOk p (sumL (lendPays ws tot (lendDaily p tr))) = true := by
+  refine ⟨Dec.ofInt p.avail, value_at_par pr p.avail hf ht hpar ha, ?_⟩
+  have hP := P_pos
+  have hd : 0 < p.daysLeft := by unfold Prog.daysLeft; omega
+  have htr0 : 0 ≤ Dec.ofInt p.avail := by unfold Dec.ofInt; positivity
+  obtain ⟨hD0, hD1⟩ := ext_lend_daily_value p _ htr0 hc
+  obtain ⟨hnn, hb⟩ := lend_bound ws tot _ hw htot hD0
+  have hs0 := sumL_nonneg _ hnn
+  unfold lendBoundOk at hb
+  simp only [decide_eq_true_eq] at hb
+  rw [hint] at hb
+  unfold capOk
+  simp only [Bool.or_eq_true, Bool.and_eq_true, decide_eq_true_eq]
+  right
+  refine ⟨hs0, ?_⟩
+  generalize sumL (lendPays ws tot (lendDaily p (Dec.ofInt p.avail))) = paid at *
+  generalize lendDaily p (Dec.ofInt p.avail) = D at *
+  unfold Dec.ofInt at hD1
+  have hn : (0:Int) ≤ (ws.length : Int) := Int.natCast_nonneg _
+  generalize (ws.length : Int) = n at *
+  generalize p.daysLeft = dl at *
+  generalize p.avail = av at *
+  -- paid·2P²·T ≤ (2D + T)·T·P + nPT  ⇒  paid·2P ≤ 2D + T + n
+  have e1 : (Dec.P * tot) * (paid * (2 * Dec.P)) ≤ (Dec.P * tot) * (2 * D + tot + n) := by nlinarith
+  have e2 : paid * (2 * Dec.P) ≤ 2 * D + tot + n := Int.le_of_mul_le_mul_left e1 (by positivity)
+  have e3 : paid * (2 * Dec.P) * dl ≤ (2 * D + tot + n) * dl := Int.mul_le_mul_of_nonneg_right e2 (by omega)
+  have e4 : (paid * dl - av) * (2 * Dec.P) < 2 * Dec.P := by nlinarith
+  have e5 : paid * dl - av < 1 := by
+    by_contra hcon
+    have : 1 * (2 * Dec.P) ≤ (paid * dl - av) * (2 * Dec.P) :=
+      Int.mul_le_mul_of_nonneg_right (by omega) (by positivity)
+    omega
+  omega
+
+def parPrice : Price := { found := true, active := true, twa := 1000000, dec := 1000000 }
+def twoBorrowers : List Borrower := [⟨false, 1000, true, 5000, 5000⟩, ⟨false, 1000, true, 5000, 5000⟩]
+def envTwo : LendEnv :=
+  { halt := false, stats := true, asset := parPrice, quote := parPrice, base := parPrice, borrowers := twoBorrowers, rewardAsset := true, reward := parPrice }
+/-- witness X1 of the harness: borrowed asset and quote coin at par, base coin at 2, reward token at 12 -/
+def envValue : LendEnv :=
+  { halt := false, stats := true, asset := parPrice, quote := parPrice, base := { parPrice with twa := 2000000 }, rewardAsset := true,
+    reward := { parPrice with twa := 12000000 },
+    borrowers := [⟨false, 1000000000, true, 5000000000, 5000000000⟩, ⟨false, 1000000000, true, 4999999999, 4999999999⟩] }
+/-- witness X2 of the harness: three borrowers of 19 base units of an asset priced 0.1 -/
+def envTrunc : LendEnv :=
+  { halt := false, stats := true, asset := { parPrice with twa := 100000 }, quote := parPrice, base := parPrice, rewardAsset := true,
+    reward := parPrice, borrowers := [⟨false, 19, true, 5000, 5000⟩, ⟨false, 19, true, 5000, 5000⟩, ⟨false, 19, true, 5000, 5000⟩] }
+
+-- two borrowers whose eligible value is 1000 each, 600 available, 2 days left: 150 + 150 = the allocation 300; a second
+-- programme due in the same block pays the FOUR accumulated entries 75 each = its own allocation 300
+example : lendBlock 100000 [(newProg 600 2 1 0 LENDFIRST, envTwo), (newProg 600 2 1 0 LENDFIRST, envTwo)]
+    Acc.empty
+    = [(⟨[1000 * Dec.P, 1000 * Dec.P], 2000⟩, .pay [150, 150]),
+       (⟨[1000 * Dec.P, 1000 * Dec.P, 1000 * Dec.P, 1000 * Dec.P], 4000⟩, .pay [75, 75, 75, 75])] := by decide
+
+/-- **A lend programme pays the oracle VALUE of its daily allocation as a token AMOUNT** (iter.go:280-295): reward token priced
+12 value units per base unit, 1 200 000 000 available, 2 days left, two borrowers with weight 10⁹ each ⇒ 3 600 000 000 each:
+7 200 000 000 paid in one epoch of a programme funded with 1 200 000 000 (allocation 600 000 000). -/
+theorem ext_lend_value_as_amount_counterexample :
+    let e := envValue
+    let p := newProg 1200000000 2 1 0 LENDFIRST
+    (lendOne p 100000 e Acc.empty).2.1 = .pay [3600000000, 3600000000] ∧
+    capOk p 7200000000 = false ∧ (p.apply 100000 (.pay [3600000000, 3600000000])).avail = -6000000000 := by
+  decide
+
+/-- **`totalAmount` sums the TRUNCATED weights, the payouts use the untruncated ones** (iter.go:273-274, 288-292): three
+borrowers of 19 base units of an asset priced 0.1 (weight 1.9 each, total 3): the programme pays 633 333 × 3 = 1 899 999 of a daily
+allocation of 1 000 000; on the last day this exceeds what the programme has. -/
+theorem ext_lend_truncated_total_counterexample :
+    let e := envTrunc
+    let p := newProg 3000000 3 1 0 LENDFIRST
+    (lendOne p 100000 e Acc.empty).1 = ⟨[1900000000000000000, 1900000000000000000, 1900000000000000000], 3⟩ ∧
+    (lendOne p 100000 e Acc.empty).2.1 = .pay [633333, 633333, 633333] ∧ capOk p 1899999 = false := by
+  decide
+
+/-! ### A programme's life: any history of visits -/
+
+/-- the visits the code can produce are valid (`ValidVisit`): an epoch is paid only when the programme is active, due and has
+epochs left; it is switched off only when due with no epochs left -/
+theorem ext_share_visit_valid (p : Prog) (now total : Int) (users : List User) (o : Outcome)
+    (h : shareOutcome p now total users = .ok o) : ValidVisit p now o := by
+  obtain ⟨h1, h2⟩ := shareOutcome_valid p now total users o h
+  cases o with
+  | skip => trivial
+  | off => exact h1 rfl
+  | pay pays =>
+    obtain ⟨a, b, c, rfl⟩ := h2 pays rfl
+    refine ⟨a, b, c, ?_⟩
+    intro r hr
+    obtain ⟨u, _, rfl⟩ := List.mem_map.mp hr
+    exact userPay_nonneg p now total u
+
+/-- **Cumulative paid = funding − AvailableRewards**, the funding and the duration never change — for any history of visits -/
+theorem ext_cumulative_is_funding_minus_available (amount days minLock now first : Int) (hist : List (Int × Outcome)) :
+    paidTotal hist = amount - (runProg (newProg amount days minLock now first) hist).avail ∧
+    (runProg (newProg amount days minLock now first) hist).total = amount := by
+  obtain ⟨h1, h2, _⟩ := runProg_booking (newProg amount days minLock now first) hist
+  simp only [newProg] at h1 h2 ⊢
+  exact ⟨by omega, h2⟩
+
+/-- **At most `DurationDays` epochs are ever paid**, one per visit, whatever the block times (a pause of many days pays one
+epoch at the next block, the missed days are not paid in a burst: the duration stretches) -/
+theorem ext_epochs_le_duration (amount days minLock now first : Int) (hd : 0 ≤ days) (hist : List (Int × Outcome))
+    (hv : ValidHist (newProg amount days minLock now first) hist) :
+    ((runProg (newProg amount days minLock now first) hist).count : Int) ≤ days := by
+  have := (runProg_count (newProg amount days minLock now first) hist hv (by simp [newProg]; exact hd)).1
+  simpa [newProg] using this
+
+theorem ext_one_epoch_per_visit (p : Prog) (now : Int) (pays : List Int) :
+    (p.apply now (.pay pays)).count = p.count + 1 ∧ (p.apply now (.pay pays)).start = now + DAY ∧
+    ¬ ((p.apply now (.pay pays)).start < now) := by
+  simp only [Prog.apply, DAY]; refine ⟨trivial, trivial, by omega⟩
+
+/-- after an epoch was paid at block time `now` the programme is not due again in that block -/
+theorem ext_not_due_twice (p : Prog) (now total : Int) (users : List User) (pays : List Int) :
+    shareOutcome (p.apply now (.pay pays)) now total users = .ok .skip := by
+  unfold shareOutcome
+  split
+  · rfl
+  · rw [if_pos (by simp only [Prog.apply, DAY]; omega)]
+
+/-- **Cumulative paid ≤ funding and AvailableRewards ≥ 0 — provided every epoch respects the clause as worded.**  The code does
+not enforce that (`AvailableRewards -= tracker` without comparison): `ext_overpay_counterexample`,
+`ext_lend_value_as_amount_counterexample`, `ext_lend_truncated_total_counterexample`. -/
+theorem ext_available_nonneg_of_epoch_caps (amount days minLock now first : Int) (ha : 0 ≤ amount) (hist : List (Int × Outcome))
+    (hv : ValidHist (newProg amount days minLock now first) hist) (hcap : CapHist (newProg amount days minLock now first) hist) :
+    0 ≤ (runProg (newProg amount days minLock now first) hist).avail ∧ paidTotal hist ≤ amount := by
+  have h := runProg_nonneg (newProg amount days minLock now first) hist hv hcap (by simpa [newProg] using ha)
+  have h2 := (ext_cumulative_is_funding_minus_available amount days minLock now first hist).1
+  exact ⟨h, by omega⟩
+
+/-- an accepted activation message is funded and has at least one day; the ledger of the custody theorem accepts it too -/
+theorem ext_accepted_programme_funded (amount days funds : Int) (aux : Bool) (h : ExtReward.createGuard amount days funds aux = true)
+    (l : Ledger) : 0 < amount ∧ 1 ≤ days ∧ amount ≤ funds ∧
+    step l (.createExt amount funds) = { l with bal := l.bal + amount, exts := l.exts ++ [{ avail := amount, active := true }] } := by
+  simp only [ExtReward.createGuard, Bool.and_eq_true, decide_eq_true_eq] at h
+  refine ⟨h.1.1.1, h.1.1.2, h.1.2, ?_⟩
+  simp only [step]
+  rw [if_pos (by simp only [Bool.and_eq_true, decide_eq_true_eq]; omega)]
+
+-- a programme of 2 days through a pause: two epochs, then switched off; 900 booked of 900
+example : runProg (newProg 900 2 1 0 DAY) [(86401, .pay [450]), (86402, .skip), (900000, .pay [450]), (990000, .off)]
+    = { total := 900, avail := 0, days := 2, minLock := 1, active := false, start := 986400, count := 2 } := by decide
+
+end ExtProgrammes
 
 end Comdex.C19
